@@ -105,6 +105,8 @@ def _scalar(e):
             if [ast.unparse(a) for a in e.args] != ['m', 'n', 'rho'] or e.keywords: raise Refuse('R called with ' + ast.unparse(e))
             return 'Rv'
         if f in ('np.cos', 'np.sin') and len(e.args) == 1: return f"{f.split('.')[1]} {_scalar(e.args[0])}"
+        if f == 'np.where' and len(e.args) == 3 and not e.keywords and ast.unparse(e.args[0]) == 'mask' and ast.unparse(e.args[2]) in ('0', '0.0'):
+            return f'(if mask then {_scalar(e.args[1])} else 0)'          # selection with the mask (no product: nothing outside the mask is evaluated into the result)
     raise Refuse('mode expression ' + ast.unparse(e))
 
 def _cond(t):
@@ -254,7 +256,7 @@ def _generator(repo):
             '/-- `R`: exponent of `rho` in term `k` -/\n'
             f'def radialExp (n m k : Nat) : Nat := {exp}\n\n'
             '/-- `zernike`: the decision tree on (m, n, normalize) and the product in each leaf; `Rv` = R(m, n, rho), `sqrtN k` = np.sqrt(k),\n'
-            '`mk` = the mask entry as the factor 1 or 0 (the code multiplies by the boolean mask) -/\n'
+            '`mk` = the mask entry as the factor 1 or 0 (where the code multiplies by the boolean mask; `np.where(mask, e, 0)` becomes `if mask then e else 0`) -/\n'
             'def zernCore {K : Type} [Add K] [Mul K] [Zero K] [One K] [IntCast K] (sqrtN : Nat → K) (cos sin : K → K)\n'
             '    (n : Nat) (m : Int) (normalize : Bool) (Rv theta : K) (mask : Bool) : K :=\n'
             '  let mk : K := if mask then 1 else 0\n' + tree + '\n')
